@@ -31,10 +31,12 @@ func (P) Rule() string {
 		"either directly or through a PrefixDB view over a store pre-filled with neighbour keys (prefix-1, cpDecr(prefix), PrefixToEnd(prefix), fixed-width prefix+1, ...). " +
 		"ops: set/setsync/put, del/delsync/delerr, get/load/has/exist, iter/riter with every bound combination (nil, empty, keys, neighbours), piter (NewIteratorWithPrefix), " +
 		"iterprefix (IteratePrefix), batches (several alive at once; set/del/write/writesync/commit/reset/abandon, reused after Reset on every backend incl. badger), reopen (Close + NewDB on the same directory), " +
+		"step-wise iterators (iopen/istep/iclose, up to two alive, interleaved with reads and with writes OUTSIDE their domains - the contract of types.go; batches are written and stores reopened only with no iterator alive), " +
 		"leaf ops indomain/ipbounds/cpdecr/ptoend/ptrans (bounds observed through a spy DB that records what PrefixDB/IteratePrefix pass down), crashprobe (badger batch reuse in a child process). " +
 		"keys: empty, nil, single bytes 00/ff, shared prefixes, 0xff tails, random binary; values NON-EMPTY (1..5000 bytes). " +
-		"generator restrictions (excluded corners, not filtered in the comparison): bolt and badger reject the empty key (bolt: Put error logged and dropped, badger: Set ignored, Delete panics) so cases " +
-		"with empty/nil keys on the store itself run on memdb+goleveldb only (through a PrefixDB view the empty view-key runs on all four); no writes while an iterator is open; " +
+		"generator restrictions (excluded corners, not filtered in the comparison): bolt and badger refuse the empty key (bolt: Set dropped, Put error; badger: Set/Put dropped, Get/Has/Delete panic, Del error; batches drop such ops) - " +
+		"empty/nil store keys run on memdb+goleveldb in the ordinary streams and on all four in cases tagged emptykey (tied to the model's Engine rules, equivalence monitors off); through a PrefixDB view the empty view-key runs on all four; " +
+		"prefix views are built on a prefix slice with spare capacity (an adapter appending to it without copying aliases a batch's keys: class batch-keeps-only-last-key); no write inside the domain of a live iterator; " +
 		"a batch written AGAIN without Reset only in cases tagged rewrite (what a batch holds after Write is adapter-specific: memBatch/goleveldb keep the ops, bolt/badger are empty; tied to the per-backend model, " +
 		"the equivalence monitors are off there); if the crashprobe says badger batch reuse kills the process, badger batches are single-use so that the run can report it. " +
 		"sharded stream (counts=4): iteration is per shard by design, answers compared as sorted multisets (duplicates visible). " +
@@ -51,6 +53,7 @@ type inst struct {
 	under   dbm.DB
 	view    dbm.DB
 	batches map[int]dbm.Batch
+	iters   map[int]dbm.Iterator // step-wise iterators (iopen/istep/iclose)
 }
 
 type exec struct {
@@ -83,8 +86,19 @@ func showB(b []byte) string {
 	return hx.Hex(b)
 }
 
+func (in *inst) closeIters() {
+	for id, it := range in.iters {
+		func() {
+			defer func() { recover() }()
+			it.Close()
+		}()
+		delete(in.iters, id)
+	}
+}
+
 func (e *exec) closeAll() {
 	for _, in := range e.insts {
+		in.closeIters()
 		func() {
 			defer func() { recover() }()
 			if in.under != nil {
@@ -110,6 +124,7 @@ func (in *inst) open(e *exec) {
 		in.view = dbm.NewPrefixDB(in.under, pfx)
 	}
 	in.batches = map[int]dbm.Batch{}
+	in.iters = map[int]dbm.Iterator{}
 }
 
 func (e *exec) startCase(toks []string) string {
@@ -324,7 +339,35 @@ func (e *exec) one(in *inst, toks []string) (ans string) {
 	case "bdrop": // abandoned: never written, never looked at again
 		delete(in.batches, id())
 		return "ok"
+	case "iopen": // a step-wise iterator: created here, advanced by istep, released by iclose
+		if old := in.iters[id()]; old != nil {
+			old.Close()
+		}
+		if r, _ := hx.Arg(toks, "rev"); r == "1" {
+			in.iters[id()] = db.ReverseIterator(arg("s"), arg("e"))
+		} else {
+			in.iters[id()] = db.Iterator(arg("s"), arg("e"))
+		}
+		return "ok"
+	case "istep": // Valid? then Key, Value, Next
+		it := in.iters[id()]
+		if it == nil {
+			return "noiter"
+		}
+		if !it.Valid() {
+			return "end"
+		}
+		a := hx.Hex(it.Key()) + ":" + showV(it.Value())
+		it.Next()
+		return a
+	case "iclose":
+		if it := in.iters[id()]; it != nil {
+			it.Close()
+			delete(in.iters, id())
+		}
+		return "ok"
 	case "reopen":
+		in.closeIters()
 		in.under.Close()
 		if in.typ != dbm.MemDBBackend { // Close of a MemDB is a no-op by contract; its content is the process memory
 			in.open(e)
